@@ -259,7 +259,7 @@ def _run_write(case):
                 for nm, a in zip(names, arrays):
                     C.TABLE[nm] = (lambda a=a: a.copy())
                     p.add_command(p.find_command_class("ConstNF"), nm, {"Key": nm})
-                p.add_command(p.find_command_class("EEMSWrite"), "W", {"OutFileName": "out.nc", "OutFieldNames": names, "DimensionFileName": "tpl.nc", "DimensionFieldName": "t"})
+                p.add_command(p.find_command_class("EEMSWrite"), "W", {"OutFileName": "out.nc", "OutFieldNames": list(names), "DimensionFileName": "tpl.nc", "DimensionFieldName": "t"})
                 evals += 1
                 judged += 1
                 union = [any((m is not None and (m >> i & 1)) for m in masks) for i in range(n)]
